@@ -397,5 +397,6 @@ Proof.
   intros n Hn Hz. apply zrange_In in Hn.
   assert (In n (map Z.of_nat (seq 1 64))).
   { apply in_map_iff. exists (Z.to_nat n). split; [lia|]. apply in_seq. lia. }
-  revert H. clear. revert n. apply Forall_forall. vm_compute. repeat constructor.
+  clear Hn. vm_compute in H.
+  repeat (destruct H as [H|H]; [subst n; vm_compute; reflexivity|]). contradiction.
 Qed.
